@@ -146,6 +146,42 @@ def run(report, db, tier):
                          '%s for release protocol(s) %s' % (
                              key, list(got) if isinstance(got, tuple)
                              else got, list(want), ps))
+    # a core packet is *decoded* by its published id only if no other class
+    # registered in the same table of that release claims the id too (the
+    # reactor keeps one class per id)
+    R5 = report.rule('R07.5', 'in every README release, no other registered '
+                     'class shares the published id of a core packet')
+    n_tables = 0
+    clashes = {}
+    for key, spec in sorted(ref['packets'].items()):
+        mod, qn = spec['cls'].split(':')
+        cv = ClassVal(db.get_class(mod, qn))
+        for row in spec['rows']:
+            for p in row['protocols']:
+                if p not in protos:
+                    continue
+                t = P.table(spec['direction'], spec['state'], p)
+                if isinstance(t, Raises) or cv not in t:
+                    continue
+                n_tables += 1
+                for other in t:
+                    if other == cv:
+                        continue
+                    if P.table_id(other, p) == row['id']:
+                        clashes.setdefault((key, other.ci.qualname,
+                                            row['id']), []).append(p)
+    for (key, other, i), ps in sorted(clashes.items()):
+        oci = [c for c in db.classes if c.qualname == other][0]
+        fi = db.find_method(oci, 'get_id')
+        report.violation(
+            R5, 'clash:%s:%s:%s' % (key, other, ','.join(map(str, ps))),
+            oci.path, fi.node if fi is not None else oci.node, other,
+            '%s also resolves to id 0x%02X, the published id of %s, in '
+            'release protocol(s) %s: frames of one are decoded as the other'
+            % (other, i, key, ps))
+    if not clashes:
+        report.ok(R5, 'no other class claims a core packet\'s id (%d '
+                  'packet x release tables)' % n_tables)
     report.note('(packet, release) cells', n_cells)
     report.floor('(packet, release) cells', n_cells, 550)
     # constants
